@@ -1199,7 +1199,7 @@ def k14(ctx):
     ret = _nrm(b, b.role_of_local(0))
     ctx.check(ret.startswith("disassociate_proven_eq(self, check(CongruenceProof{"), "lift:result", "the result is the dis-associated answer of the congruence kernel", "lift_sem_congruence returns %s" % ret[:100], where_of(b))
     # ---- associate_necessaries
-    b = meth("associate_necessaries")
+    b = mir.inline_view(crate, meth("associate_necessaries"), keep=("get_redundancy_proof", "prove_transitivity", "prove_symmetry", "prove_reflexivity", "disassociate_proven_eq", "check", "syn_slots", "slots"))
     n_t = 0
     for bi, f in _aggs(b, "proof::TransitivityProof"):
         for pos, side in (("0", "l"), ("1", "r")):
@@ -1489,7 +1489,17 @@ def k17(ctx):
     ctx.check(len(got) == 1 and got[0].replace("p2", "p1").replace("p1.id", "p1") == want, "refl-child-proof", "a child is proved reflexively as id[identity over its syntactic slots]",
               "the reflexive child proof is %s; it must be %s" % (got[:1], want), where_of(rp[0] if rp else vb))
     ret = _nrm(vb, vb.role_of_local(0))
-    ctx.check("p2" in ret and "applied_id_occurrences(p2)" in ret.replace("iter(", "(").replace("into_iter(", "("), "refl-children-in-order", "the reflexive node carries one proof per child of the node handed in, in occurrence order",
+    okr = "p2" in ret and "applied_id_occurrences(p2)" in ret.replace("iter(", "(").replace("into_iter(", "(")
+    if not okr:
+        # push-loop form: `for child in start.applied_id_occurrences() { proofs.push(refl_proof(child.id)) }`, the vector then stored
+        for l_ in C.iterator_loops(vb):
+            it_ = _nrm(vb, l_[1]).replace("into_iter(", "(").replace("iter(", "(")
+            ps_ = [c for c in vb.calls if c.callee and c.callee.name == "push" and not vb.blocks[c.bb]["cleanup"] and c.bb in C.loop_body(vb, l_)]
+            if "applied_id_occurrences(p2)" in it_ and not re.search(r"\b(rev|skip|take|filter|step_by|chain)\(", it_) and len(ps_) == 1 and C.loop_exhaustive(vb, l_) \
+                    and vb.must_pass(l_[3], [l_[0]], {ps_[0].bb}) and re.search(r"prove_reflexivity|ReflexivityProof", _nrm(vb, vb.role_of_operand(ps_[0].args[1]))) \
+                    and _nrm(vb, vb.role_of_operand(ps_[0].args[0])) in ret:
+                okr = True
+    ctx.check(okr, "refl-children-in-order", "the reflexive node carries one proof per child of the node handed in, in occurrence order",
               "refl_pn builds %s" % ret[:200], where_of(vb))
 
 
